@@ -142,6 +142,16 @@ class Snap:
         return self.value()[1] == 0.0
 
     @property
+    def well_scaled(self):
+        """every tensor has 1e-6 <= max |entry| <= 1e6: the passes that detect structure compare entries with an
+        *absolute* atol of 1e-12, which is only meaningful for such tensors"""
+        for a in self.arrays:
+            m = float(np.max(np.abs(a))) if np.size(a) else 1.0
+            if m != 0.0 and not (1e-6 <= m <= 1e6):
+                return False
+        return True
+
+    @property
     def double(self):
         return all(np.asarray(a).dtype in (np.float64, np.complex128) for a in self.arrays)
 
@@ -188,7 +198,7 @@ class Snap:
         """fresh quimb network; tensor k additionally gets the unique tag U{k}"""
         ts = []
         for k in range(self.nt):
-            tg = tuple(t for t in self.tags[k] if not (t.startswith("U") and t[1:].isdigit())) + (f"U{k}",)
+            tg = tuple(t for t in self.tags[k] if not (t.startswith("U") and t[1:].isdigit()) and t != "N") + ("N", f"U{k}")
             ts.append(qtn.Tensor(self.arrays[k].copy(), inds=self.labels[k], tags=tg, left_inds=self.flags[k]))
         tn = qtn.TensorNetwork(ts)
         tn.exponent = self.exponent
@@ -318,6 +328,8 @@ def check_step(before, after, dt, loose=False, same_tensors=True, same_outer=Tru
         if after.flags[k] is not None:
             if any(x not in after.labels[k] for x in after.flags[k]):
                 return f"left_inds {after.flags[k]} of tensor {k} are not among its labels {after.labels[k]}"
+            if len(set(after.labels[k])) != len(after.labels[k]):
+                continue    # a label renamed onto another one of the same tensor: the claim cannot be evaluated
             d = _iso_defect(after.arrays[k], list(after.labels[k]), after.flags[k])
             if d > tol:
                 return f"tensor {after.tags[k]} is flagged isometric on {after.flags[k]} but |M^H M - 1| = {d:.2e}"
@@ -657,6 +669,12 @@ class _GaugeAllSimple(_Base):
     zero_ok = False
 
     @staticmethod
+    def ok(sp):
+        # simple update gauging multiplies by inverse singular values (smudge 1e-12): on bonds that are, or become
+        # under the iteration, rank deficient this overflows single precision -> double precision only
+        return sp.plain and sp.gauges is None and sp.double
+
+    @staticmethod
     def draw(rng, sp):
         return dict(max_iterations=_choice(rng, [1, 3, 5]), tol=_choice(rng, [0.0, 1e-6]), power=_choice(rng, [1.0, 1.0, 0.5]),
                     damping=_choice(rng, [0.0, 0.0, 0.2]), fuse=bool(rng.integers(0, 2)), eq=bool(rng.integers(0, 2)),
@@ -729,7 +747,8 @@ class _GaugeLocal(_Base):
         for _ in range(md):
             region |= {j for i in region for j in nb[i]}
         region_bonds = sum(1 for (i, j) in sp.edges() if i in region and j in region)
-        return dict(tags=tags, which=which, max_distance=md, method=_choice(rng, ["canonize", "simple", "random"]),
+        return dict(tags=tags, which=which, max_distance=md,
+                    method=_choice(rng, ["canonize", "simple", "random"] if sp.double else ["canonize", "random"]),
                     max_iterations=_choice(rng, ["max_distance", 1, 2]), inplace=bool(rng.integers(0, 2)),
                     region_bonds=region_bonds)
 
@@ -1009,7 +1028,7 @@ class _CompressAllSimple(_Base):
 
     @staticmethod
     def ok(sp):
-        return sp.plain and sp.gauges is None and bool(sp.edges())
+        return sp.plain and sp.gauges is None and bool(sp.edges()) and sp.double
 
     @staticmethod
     def draw(rng, sp):
@@ -1030,14 +1049,14 @@ class _Ext(_Base):
 
     @staticmethod
     def ok(sp):
-        return sp.plain and sp.gauges is not None
+        return sp.plain and sp.gauges is not None and sp.double
 
 
 @rewrite("gauge_all_simple(gauges)", "X")
 class _XGaugeAllSimple(_Ext):
     @staticmethod
     def ok(sp):
-        return sp.plain and bool(sp.edges())
+        return sp.plain and bool(sp.edges()) and sp.double
 
     @staticmethod
     def draw(rng, sp):
@@ -1064,7 +1083,7 @@ class _XGaugeAllSimple(_Ext):
 class _XCanonizeBetween(_Ext):
     @staticmethod
     def ok(sp):
-        return sp.plain and sp.gauges is not None and bool(sp.edges())
+        return sp.plain and sp.gauges is not None and bool(sp.edges()) and sp.double
 
     @staticmethod
     def draw(rng, sp):
@@ -1081,7 +1100,7 @@ class _XCanonizeBetween(_Ext):
 class _XCompressBetween(_Ext):
     @staticmethod
     def ok(sp):
-        return sp.plain and sp.gauges is not None and bool(sp.edges())
+        return sp.plain and sp.gauges is not None and bool(sp.edges()) and sp.double
 
     @staticmethod
     def draw(rng, sp):
@@ -1129,7 +1148,7 @@ class _XFuse(_Ext):
 class _XCompressAllSimple(_Ext):
     @staticmethod
     def ok(sp):
-        return sp.plain and sp.gauges is not None and bool(sp.edges())
+        return sp.plain and sp.gauges is not None and bool(sp.edges()) and sp.double
 
     @staticmethod
     def draw(rng, sp):
@@ -1200,7 +1219,7 @@ class _Simp(_Base):
     @staticmethod
     def ok(sp):
         # networks in which a tensor carries a label twice (diagonal_reduce leaves them) are included
-        return sp.gauges is None and sp.nt >= 1
+        return sp.gauges is None and sp.nt >= 1 and sp.well_scaled
 
     @classmethod
     def okw(cls, sp, p):
@@ -1360,7 +1379,7 @@ class _CompressSimplify(_Simp):
 
     @staticmethod
     def ok(sp):
-        return sp.gauges is None and sp.nt >= 1
+        return sp.gauges is None and sp.nt >= 1 and sp.well_scaled
 
     @staticmethod
     def draw(rng, sp):
@@ -1469,8 +1488,11 @@ def compose(cx, qtn, rng, base, start, names, nsteps, dt, label, first=None):
             break
         if "after" not in cell:
             # the evaluation was filtered out (replay of another case): advance the state silently
+            # (exactly as the evaluated run does: a violated or crashed step ends the sequence)
             try:
-                cell["after"], _ = run_step(qtn, cur, name, p, dt)
+                cell["after"], err = run_step(qtn, cur, name, p, dt)
+                if err is not None:
+                    cell["after"] = None
             except Exception:
                 cell["after"] = None
         if cell["after"] is None:
@@ -1556,7 +1578,9 @@ def simplification(cx):
         start, kinds = gen_structured(crng, nt, dt, e, hy)
         base = dict(i=i, nt=nt, hyper=hy, dt=dt, e=e, kinds=kinds, out=list(start.out),
                     out_is_inferred=set(start.out) == set(start.inferred))
-        names = S_NAMES + (G_NAMES if r % 2 == 0 else [])
+        # (belief propagation gauging only on the random dense networks of the gauging driver: on structured, rank
+        # deficient tensors its unconverged messages truncate, see finding C04-f)
+        names = S_NAMES + ([n for n in G_NAMES if n != "gauge_all_bp"] if r % 2 == 0 else [])
         compose(cx, qtn, crng, base, start, names, nsteps, dt, "simplification")
 
 
